@@ -80,3 +80,49 @@ func RunQoS(ingress bool, fr []byte, skbLen uint32) (verdict int, priority uint3
 	v := C.vf_run_qos(in, p, C.uint32_t(len(fr)), C.uint32_t(skbLen), &prio)
 	return int(v), uint32(prio), nil
 }
+
+// XDP verdicts.
+const (
+	XDPDrop = 1
+	XDPPass = 2
+	XDPTx   = 3
+)
+
+// XDPSizes are the C-side sizes of the fast path's map keys/values.
+type XDPSizes struct {
+	PoolAssignment, VLANKey, IPPool, ServerConfig, Stats, CircuitIDKey int
+}
+
+func XDPSizeof() XDPSizes {
+	return XDPSizes{int(C.vf_xdp_sizeof(0)), int(C.vf_xdp_sizeof(1)), int(C.vf_xdp_sizeof(2)), int(C.vf_xdp_sizeof(3)), int(C.vf_xdp_sizeof(4)), int(C.vf_xdp_sizeof(5))}
+}
+
+// XDPMaps registers the kernel maps behind the fast path's map definitions, in
+// the order subscriber_pools, vlan_subscriber_pools, ip_pools, server_config,
+// stats_map, circuit_id_map, circuit_id_subscribers.
+func XDPMaps(fds [7]int) error {
+	sz := XDPSizeof()
+	ks := [7]int{8, sz.VLANKey, 4, 4, 4, 8, sz.CircuitIDKey}
+	vs := [7]int{sz.PoolAssignment, sz.PoolAssignment, sz.IPPool, sz.ServerConfig, sz.Stats, 8, sz.PoolAssignment}
+	for i := 0; i < 7; i++ {
+		if err := register(C.vf_xdp_map(C.int(i)), fds[i], ks[i], vs[i]); err != nil {
+			return err
+		}
+	}
+	return nil
+}
+
+// RunXDP runs the DHCP fast path on one frame and returns the verdict and the
+// frame as the program left it (length after bpf_xdp_adjust_tail).
+func RunXDP(fr []byte) (verdict int, out []byte, err error) {
+	const off = 1024
+	room := len(fr) + 1024
+	p, err := frame(fr, off)
+	if err != nil {
+		return 0, nil, err
+	}
+	var outLen C.uint32_t
+	v := C.vf_run_xdp(p, C.uint32_t(len(fr)), C.uint32_t(room), &outLen)
+	out = append([]byte(nil), unsafe.Slice((*byte)(p), int(outLen))...)
+	return int(v), out, nil
+}
